@@ -17,7 +17,7 @@ def hx(b):
 class C13(Prop):
     id = "C13"
     title = "Input framing ignores packet boundaries and survives any byte stream"
-    lean_modules = ["NV.C13.Props", "NV.C13.Witness", "NV.C13.Negative", "NV.C13.TableTie", "NV.C13.Lemmas18"]
+    lean_modules = ["NV.C13.Props", "NV.C13.Witness", "NV.C13.Negative", "NV.C13.TableTie", "NV.C13.Lemmas18", "NV.C13.Lemmas19"]
     theorems = ["NV.C13.ts_layout", "NV.C13.sb_array_has_room", "NV.C13.sb_in_bounds", "NV.C13.copy_chars_expansion",
                 "NV.C13.buffer_writes_in_bounds", "NV.C13.space_rule_sufficient", "NV.C13.space_rule_numbers",
                 "NV.C13.input_never_overflows", "NV.C13.segmentation_independent",
@@ -32,7 +32,7 @@ class C13(Prop):
                 "NV.C13.consoleLines_eq_cmdsOf", "NV.C13.statement_order_tie",
                 "NV.C13.cc_table_tie", "NV.C13.cc_table_states", "NV.C13.cc_table_total", "NV.C13.cc_table_no_crash",
                 "NV.C13.reframeLoop_len", "NV.C13.reframe_N", "NV.C13.setCall_N", "NV.C13.endInput_N",
-                "NV.C13.reframe_is_line_framing"]
+                "NV.C13.reframe_is_line_framing", "NV.C13.getUserData_evok", "NV.C13.run_events_safe"]
     witness_theorems = ["NV.C13.sb_terminator_overflows_exact_array", "NV.C13.ayt_returns_to_data",
                         "NV.C13.full_sb_payload_is_not_text", "NV.C13.ascii_spec_example",
                         "NV.C13.burst_check", "NV.C13.telnet_lines_delivered_Full_false"]
